@@ -26,7 +26,7 @@ import (
 )
 
 type c30Op struct {
-	Op string `json:"op"` // put | pia | remove
+	Op string `json:"op"` // put | pia | remove | tick (time passes: one hour on the DMap's clock, no registry call)
 	K  int    `json:"k"`
 	V  int    `json:"v"`
 }
@@ -41,17 +41,26 @@ type c30Out struct {
 	Res   []int     `json:"res"`   // 0 ok, 1 already exists, 2 other error
 	Store [][][2]int `json:"store"` // after every op: sorted (key, owner port)
 	NX    []bool    `json:"nx"`    // whether the put carried the NX option
+	TTL   []bool    `json:"ttl"`   // whether the put carried any expiry option (EX/PX/EXAT/PXAT)
 }
 
-func c30HasNX(options []olric.PutOption) bool {
+// c30Opts applies the put options to olric's (internal) PutConfig by reflection: (NX?, any expiry?)
+func c30Opts(options []olric.PutOption) (bool, bool) {
 	if len(options) == 0 {
-		return false
+		return false, false
 	}
 	cfg := reflect.New(reflect.TypeOf(options[0]).In(0).Elem())
 	for _, o := range options {
 		reflect.ValueOf(o).Call([]reflect.Value{cfg})
 	}
-	return cfg.Elem().FieldByName("HasNX").Bool()
+	v := cfg.Elem()
+	ttl := false
+	for _, f := range []string{"HasEX", "HasPX", "HasEXAT", "HasPXAT"} {
+		if fv := v.FieldByName(f); fv.IsValid() && fv.Bool() {
+			ttl = true
+		}
+	}
+	return v.FieldByName("HasNX").Bool(), ttl
 }
 
 func TestVerifC30RegistryOps(t *testing.T) {
@@ -62,17 +71,19 @@ func TestVerifC30RegistryOps(t *testing.T) {
 	for _, cs := range cases {
 		var mu sync.Mutex
 		store := map[string][]byte{}
-		lastNX := false
+		expires := map[string]bool{} // records written with an expiry vanish at the next tick (every TTL is far below one hour)
+		lastNX, lastTTL := false, false
 		dm := &MockDMap{
 			putFn: func(_ context.Context, key string, value any, options ...olric.PutOption) error {
 				mu.Lock()
 				defer mu.Unlock()
-				lastNX = c30HasNX(options)
+				lastNX, lastTTL = c30Opts(options)
 				if _, ok := store[key]; ok && lastNX {
 					return olric.ErrKeyFound
 				}
 				b, _ := value.([]byte)
 				store[key] = append([]byte(nil), b...)
+				expires[key] = lastTTL
 				return nil
 			},
 			deleteFn: func(_ context.Context, keys ...string) (int, error) {
@@ -94,8 +105,17 @@ func TestVerifC30RegistryOps(t *testing.T) {
 			id := "kind/g" + itoa30(op.K)
 			grain := &internalpb.Grain{GrainId: &internalpb.GrainId{Kind: "kind", Name: "g" + itoa30(op.K), Value: id}, Host: "h", Port: int32(op.V)}
 			var err error
-			lastNX = false
+			lastNX, lastTTL = false, false
 			switch op.Op {
+			case "tick":
+				mu.Lock()
+				for k, e := range expires {
+					if e {
+						delete(store, k)
+						delete(expires, k)
+					}
+				}
+				mu.Unlock()
 			case "put":
 				err = cl.PutGrain(ctx, grain)
 			case "pia":
@@ -112,6 +132,7 @@ func TestVerifC30RegistryOps(t *testing.T) {
 				out.Res = append(out.Res, 2)
 			}
 			out.NX = append(out.NX, lastNX)
+			out.TTL = append(out.TTL, lastTTL)
 			var snap [][2]int
 			mu.Lock()
 			for key, b := range store {
